@@ -191,6 +191,26 @@ def nested_bound():
         return False
 
 
+def delitem_hook():
+    """does `del x[f]` run the class's __validate__ hook (and restore the instance when it raises)?  Probed."""
+    try:
+        import typedpy as T
+
+        def __validate__(self):
+            if self.__dict__.get("a") is None:
+                raise ValueError("a is needed")
+        P = type("DhProbe", (T.Structure,), {"a": T.Integer, "b": T.Integer, "_required": [], "__validate__": __validate__})
+        x = P(a=1, b=2)
+        before = str(x)
+        try:
+            del x["a"]
+            return False
+        except ValueError:
+            return str(x) == before
+    except Exception:
+        return False
+
+
 def render(rows, acc_rows):
     lines = ["/- GENERATED by extract/wrappers.py from typedpy/fields/collections_impl.py — do not edit. -/",
              "import TypedpyModel.Core.Tables", "namespace Typedpy.Generated", "",
@@ -205,7 +225,9 @@ def render(rows, acc_rows):
     lines.append(",\n".join(f"  {{ wrapper := {lean_str(k)}, method := {lean_str(a)}, overridden := {lean_bool(o)} }}"
                             for k, a, o in acc_rows))
     lines += ["]", "", "/-- nested typed wrappers re-assign (re-validate) their parent: probed on the real code -/",
-              f"def nestedBound : Bool := {lean_bool(nested_bound())}", "", "end Typedpy.Generated", ""]
+              f"def nestedBound : Bool := {lean_bool(nested_bound())}", "",
+              "/-- `Structure.__delitem__` runs the class's `__validate__` hook and rolls back: probed on the real code -/",
+              f"def delitemHook : Bool := {lean_bool(delitem_hook())}", "", "end Typedpy.Generated", ""]
     return "\n".join(lines)
 
 
